@@ -39,7 +39,8 @@ def cat_spec(name, dtypes="?"):
     """JSON category spec for the driver, with the dtypes the real class carries"""
     c = cat_class(name, dtypes)
     d = c.dtypes
-    return {"name": name, "dtypes": None if d is AT._any_dtype else [x for x in d]}
+    # `name` is what the class is called (the model prints it); `key` is how this harness finds the class again
+    return {"name": c.__name__, "key": name, "dtypes": None if d is AT._any_dtype else [x for x in d]}
 
 
 class Unbuildable(Exception):
@@ -84,7 +85,7 @@ def build(spec):
         aty = build_aty(spec["aty"])
     except Unbuildable as e:
         return "INNER-" + e.kind
-    cat = cat_class(spec["cat"]["name"], spec["cat"].get("dtypes"))
+    cat = cat_class(spec["cat"].get("key", spec["cat"]["name"]), spec["cat"].get("dtypes"))
     try:
         return cat[aty, spec["dims"]]
     except ValueError:
